@@ -58,7 +58,7 @@ def budget(tier):
 
 
 def _gen(g):
-    scenario = g.weighted([(40, "duplex"), (25, "latereader"), (20, "close"), (15, "busy")])
+    scenario = g.weighted([(34, "duplex"), (22, "latereader"), (16, "close"), (12, "busy"), (16, "pingpong")])
     sizes_small = [1, 2, 100, 4096, 65536, 65537, 200000]
 
     def msgs(n, pool):
@@ -78,6 +78,11 @@ def _gen(g):
         case["bufs"] = g.choice([16384, 65536, None])
         case["max"]["b"] = [g.choice([1000, 65536, 1 << 20])]
         case["first_read"] = g.bool()      # the reader receives one chunk, then stalls
+    elif scenario == "pingpong":
+        # request/response: the peer stays silent until the reader has consumed the whole message
+        case["msgs"] = {"a": msgs(3, [5, 300, 1028, 5000, 70000]), "b": []}
+        case["max"]["b"] = [g.choice([1, 4, 7, 100]), g.choice([3, 100, 1000])]
+        case["bufs"] = None
     elif scenario == "close":
         case["msgs"] = {"a": msgs(3, [1, 100, 4096, 65536]), "b": []}
         case["bufs"] = None
@@ -301,6 +306,40 @@ async def scenario_latereader(case, out, stats, w, r):
     stats["latereader"] += 1
 
 
+async def scenario_pingpong(case, out, stats, w, r):
+    """Each message is acknowledged by the reader only after it has been read completely; the writer is silent meanwhile."""
+    off = 0
+    for n in case["msgs"]["a"]:
+        await w.send(pat(off, n))
+        got = 0
+        i = 0
+        try:
+            with anyio.fail_after(8):
+                while got < n:
+                    m = case["max"]["b"][i % len(case["max"]["b"])]
+                    i += 1
+                    chunk = await r.receive(min(m, n - got))
+                    if not (1 <= len(chunk) <= m):
+                        out.bad("chunk-size", "pingpong", f"receive({m}) returned {len(chunk)} bytes")
+                    if chunk != pat(off + got, len(chunk)):
+                        out.bad("stream-corrupted", "pingpong", f"offset {off + got}")
+                        return
+                    got += len(chunk)
+                    if len(chunk) == m:
+                        stats["chunk_split_by_max_bytes"] += 1
+        except TimeoutError:
+            raise Hang() from None
+        await r.send(b"ACK")
+        ack = b""
+        with anyio.fail_after(8):
+            while len(ack) < 3:
+                ack += await w.receive(3 - len(ack))
+        if ack != b"ACK":
+            out.bad("stream-corrupted", "ack", repr(ack))
+        off += n
+    stats["pingpong"] += 1
+
+
 async def scenario_close(case, out, stats, w, r):
     total = sum(case["msgs"]["a"])
     prog = {}
@@ -430,6 +469,8 @@ def run_once(case, out, stats):
                             await scenario_latereader(case, out, stats, w, r)
                         elif sc == "close":
                             await scenario_close(case, out, stats, w, r)
+                        elif sc == "pingpong":
+                            await scenario_pingpong(case, out, stats, w, r)
                         else:
                             await scenario_busy(case, out, stats, w, r)
                     finally:
@@ -451,12 +492,19 @@ def run_once(case, out, stats):
         except TimeoutError:
             raise Hang() from None
 
-    anyio.run(main, backend_options={"loop_factory": _factory(case["config"])})
+    try:
+        anyio.run(main, backend_options={"loop_factory": _factory(case["config"])})
+    except BaseExceptionGroup as eg:
+        def has_hang(e):
+            return isinstance(e, Hang) or (isinstance(e, BaseExceptionGroup) and any(has_hang(x) for x in e.exceptions))
+        if has_hang(eg):
+            raise Hang() from None
+        raise
 
 
 def run_case(case) -> Outcome:
     out = Outcome()
-    stats = dict.fromkeys(["duplex", "latereader", "close", "busy", "more_than_kernel_capacity",
+    stats = dict.fromkeys(["duplex", "latereader", "close", "busy", "pingpong", "more_than_kernel_capacity",
                            "chunk_split_by_max_bytes", "watchdog_rerun", "stall_after_first_receive"], 0)
     hangs = 0
     for attempt in range(3):
@@ -470,7 +518,7 @@ def run_case(case) -> Outcome:
         out.viols = trial.viols
         break
     else:
-        out.bad("hang", case["scenario"], f"{case}: no completion within 30 s on 3 runs")
+        out.bad("hang", case["scenario"], f"{case}: no completion within the watchdog (8 s per message / 30 s per case) on 3 runs")
     out.nontrivial = bool(stats["more_than_kernel_capacity"] or stats["chunk_split_by_max_bytes"] or stats["duplex"])
     out.labels = [k for k, v in stats.items() if v] + [case["kind"], "config-" + case["config"], "writer-" + case["writer"]]
     return out
